@@ -415,6 +415,20 @@ def run_shard(shard):
                     judge_all(res, cfg, h, kind, val, n)
                     res["evaluations"] += 1
                     res["transitions"] += n
+        # two units (two buses) whose whole-bank reads are IN PROGRESS at the same time: the bank objects are module-level
+        # singletons shared by every unit, a read must not keep its state there
+        import importlib
+        bank = getattr(importlib.import_module("dali.memory." + M.BANKS[bname][0]), bname)
+        for pattern in ((1, 1), (3, 1), (1, 5)):
+            cfgs = [dict(bank=bname, image="rnd1", last=None, holes=[], fam=fam, use_latch=latch, ticks=False, sa=3),
+                    dict(bank=bname, image="rnd2", last=None, holes=[], fam=fam, use_latch=latch, ticks=False, sa=9)]
+            hs = [MemHarness(c["fam"], c["bank"], c["image"], c["last"], c["holes"], None, ticks=False, faults=False, sa=c["sa"]) for c in cfgs]
+            outs_ = G.run_interleaved([bank.read_all(h.addr(), use_latch=latch) for h in hs], hs, 900, pattern)
+            for c, h, (kind, val, n) in zip(cfgs, hs, outs_):
+                c = dict(c, interleaved=list(pattern))
+                judge_all(res, c, h, kind, val, n)
+                res["evaluations"] += 1
+                res["transitions"] += n
         sample(res, {"read_all": bname, "fam": fam, "use_latch": latch, "bound": bound})
     return res
 
@@ -423,13 +437,16 @@ def replay(case):
     from dalimc.core.explorer import Chooser
     res = new_result()
     if case["t"] == "single":
-        cfg = {k: case[k] for k in ("bank", "name", "image", "last", "holes", "fam", "mode")}
+        cfg = {k: case[k] for k in ("bank", "name", "image", "last", "holes", "fam", "mode", "sa") if k in case}
         row = M.by_name()[(cfg["bank"], cfg["name"])]
         for ch, obs in explore(lambda c: run_single(cfg, c), bound=1):
             h, row_, kind, val, n = obs
             judge_single(res, cfg, h, row, kind, val, cfg["mode"])
+    elif case.get("interleaved"):
+        vs = run_shard(("all", case["bank"], case["fam"], case["use_latch"], "quick"))["violations"]
+        return [v for v in vs if v["case"].get("interleaved")]
     else:
-        cfg = {k: case[k] for k in ("bank", "image", "last", "holes", "fam", "use_latch", "ticks") if k in case}
+        cfg = {k: case[k] for k in ("bank", "image", "last", "holes", "fam", "use_latch", "ticks", "sa") if k in case}
         if "lock_byte" in case:
             cfg["lock_byte"] = case["lock_byte"]
         for ch, obs in explore(lambda c: run_all(cfg, c), bound=2 if len(case.get("injected", [])) + case.get("nticks", 0) > 1 else 1):
